@@ -68,7 +68,7 @@ def work(arg: tuple) -> dict:
     for combo in combos:
         base = X.Case(spec, [c[1] for c in combo], inputs=[c[2] for c in combo], fam=fam)
         cases = [base]
-        if k == 2:
+        if k == 2 and (tier == 'quick' or fam == 'corpus'):
             # the same runs on two chart objects (two DAGs) built from the same node classes
             cases.append(X.Case(spec, base.plans, inputs=base.inputs, fam=fam, collab={'chart_per_run': True}))
         if k == 2 and len(spec['nodes']) <= (4 if q else 5) and combo[0][0] in (('ok0',) if q else ('ok0', 'ok1')) \
